@@ -19,6 +19,7 @@ from ..dataflow import guards_of, parent_map
 from ..facts import ShapeError, call_name, calls_in, dotted, kwarg, norm, param_names, walk_no_nested
 from ..tables import Inst, Opaque, decide, select_case
 from .boundary_rules import container_arms
+from .engine_rules import GMPUTILS, g2_mpfr_context
 
 BYTE = 'fpy2/interpret/byte.py'
 VALUE = 'fpy2/interpret/value.py'
@@ -382,6 +383,7 @@ RULES = [
     Rule('C18.E1', 'process-wide state: only lazy initialisation, import-time configuration and source caches are written', e1_process_state, 25, 'E'),
     Rule('C18.E1b', 'long-lived objects do not write their own state after construction (cache keyed by FuncDef identity excepted)', e1b_object_state, 3, 'E'),
     Rule('C18.E2', 'evaluation code never stores into an object it was handed', e2_parameter_mutation, 700, 'E'),
+    Rule('C18.E3', 'MPFR values are built and MPFR operations run only under a context the library sets (no ambient gmpy2 precision, rounding or exponent range)', g2_mpfr_context, 20, 'E'),
     Rule('C18.P1', 'the Python boundary rebuilds containers in both directions', p1_boundary, 8, 'P'),
     Rule('C18.G1', 'captured containers re-materialised per call; context is a local; MPFR settings scoped', g1_captured_state, 6, 'G,E'),
 ]
